@@ -38,10 +38,30 @@ func cmpBytesWrapped(a, b []byte) int {
 	return 0
 }
 
+// cmpFactory returns closures that share one code pointer and differ only in
+// captured state (a comparator may not be identified by its code address).
+//
+//go:noinline
+func cmpFactory(rev bool) func(a, b []byte) int {
+	return func(a, b []byte) int {
+		c := bytes.Compare(a, b)
+		if rev {
+			c = -c
+		}
+		if c < 0 {
+			return -7
+		}
+		if c > 0 {
+			return 7
+		}
+		return 0
+	}
+}
+
 var Cmps = map[string]func(a, b []byte) int{
 	"bytes": cmpBytes,
-	"wrap":  cmpBytesWrapped,
-	"rev":   cmpRev,
+	"wrap":  cmpFactory(false),
+	"rev":   cmpFactory(true),
 	"len":   cmpLen,
 }
 
